@@ -81,7 +81,12 @@ def act (kill : Bool) (s : S) : Act → S
         else s
       | _ => s
     | none => s
-  | .zombieEnd i k => { s with running := s.running.filter (· != (i, k)) }
+  | .zombieEnd i k =>
+    -- only a command whose runner has already moved on can "finally exit" on its own; the end of an
+    -- effect whose actor is still waiting for it is the actor's own pc 2 step
+    match s.as[i]? with
+    | some a => if a.opNo = k ∧ a.pc = 2 then s else { s with running := s.running.filter (· != (i, k)) }
+    | none => { s with running := s.running.filter (· != (i, k)) }
 
 def init (progs : List (List Op)) : S :=
   { holder := none, running := [], readers := 0, mutOrder := [], sideFx := [], maxRunning := 0,
